@@ -70,8 +70,9 @@ func newCluster(names, ssids []string, lic int) (*cluster, error) {
 	}
 	for _, n := range names {
 		x := c.nodes[n]
+		// no CONNECT packet: the broker does not require one, and a connection event replicated next to the subscription
+		// events would put payloads on the wires that the model (which only has subscription keys) does not know
 		x.cl = x.b.Attach()
-		x.cl.Send(&mqtt.Connect{ClientID: []byte("cl-" + n)})
 		if _, err := x.cl.Barrier(8 * time.Second); err != nil {
 			return nil, err
 		}
@@ -366,7 +367,7 @@ func Explore(c *core.Ctx) int64 {
 		names           []string
 		ops, per, n, dp int
 	}
-	confs := []conf{{[]string{"b1", "b2"}, 3, 1, 40, 40}, {[]string{"b1", "b2", "b3"}, 3, 1, 40, 70}}
+	confs := []conf{{[]string{"b1", "b2"}, 3, 1, 25, 40}, {[]string{"b1", "b2", "b3"}, 3, 1, 25, 70}}
 	if !c.Quick() {
 		confs = []conf{{[]string{"b1", "b2"}, 4, 2, 300, 60}, {[]string{"b1", "b2", "b3"}, 4, 1, 400, 90}}
 	}
